@@ -98,6 +98,12 @@ def execute(sc):
         seam = Seam(base, order_key=sc['order_key'], mounts=mounts, default_dev=1001, virtual_root=True)
         snap0 = w.snapshot(root=base)
         any_manifest = bool(sc.get('manifests'))
+        # every run starts from the same call history: one lookup with compressed names allowed and one without
+        # (a result must not depend on which lookups the process has served before)
+        with seam:
+            seam.begin_op(-1, step_cap=400)
+            call(find_top_level_manifest, base, allow_xdev=True, allow_compressed=True)
+            call(find_top_level_manifest, base, allow_xdev=True, allow_compressed=False)
         for i, op in enumerate(sc.get('ops', [])):
             start = op['start']
             if not os.path.isdir(os.path.join(base, start)):
